@@ -2,6 +2,7 @@
 #![allow(dead_code)]
 mod core;
 mod c14;
+mod c15;
 
 use crate::core::*;
 
@@ -57,6 +58,7 @@ fn main() {
     let ctx = Ctx::new(&id, tier, filter);
     let code = match id.as_str() {
         "C14" => c14::run(&ctx),
+        "C15" => c15::run(&ctx),
         _ => {
             eprintln!("unknown property {id}");
             2
